@@ -213,7 +213,8 @@ CHECKS["C20"] = dict(
     level_text="Retry law (next attempt exactly one backoff step after each recoverable failure while the deadline allows, none after ok / unrecoverable), flush reports failure iff an integration had no success, the notification log holds an entry for exactly the integrations that succeeded and never stamped before the success, a failing sibling changes nothing for the other integration; a crash at any boundary followed by a restart from the log image never yields zero deliveries and a completed flush is not repeated; truncation never panics, never exceeds the limit, never splits a character and returns a prefix plus marker.",
     level_note="Backoff jitter is removed by the overlay (exact instants). The crash model is process kill at the listed boundaries with the nflog content of that instant (file-level crash consistency is C11).",
     assumptions=E1_ASSUME,
-    units=[dict(pkg="notify", test="TestVerifC20", shards_quick=16, shards_thorough=16, budget_quick=100, budget_thorough=1500)],
+    units=[dict(pkg="notify", test="TestVerifC20", shards_quick=16, shards_thorough=16, budget_quick=100, budget_thorough=1500),
+           dict(pkg="notify/webhook", test="TestVerifC20Payload", shards_quick=1, shards_thorough=1, budget_quick=60, budget_thorough=120)],
 )
 
 CHECKS["C11"] = dict(
